@@ -545,10 +545,12 @@ def ss_checks(ci, r):
     def v(xs):
         return '[%s]' % '; '.join(core.qc_lit(x) for x in xs)
     for k, e in enumerate(ss.get('excitations', [])):
-        if 'error' in e or any(x is None for x in e['dotx'] + e['y']):
+        if 'error' in e or any(x is None for x in e['dotx']):
             continue
+        keep = [i for i, y_ in enumerate(e['y']) if y_ is not None]      # outputs with a reference (see worker)
         out.append(('ss/%d/excitation%d' % (ci, k), None,
-                    'ss_exc_ok %s %s %s %s %s %s %s %s' % (m(ss['A']), m(ss['B']), m(ss['C']), m(ss['D']), v(e['X']), v(e['U']), v(e['dotx']), v(e['y']))))
+                    'ss_exc_ok %s %s %s %s %s %s %s %s' % (m(ss['A']), m(ss['B']), m([ss['C'][i] for i in keep]), m([ss['D'][i] for i in keep]),
+                                                         v(e['X']), v(e['U']), v(e['dotx']), v([e['y'][i] for i in keep]))))
     return out
 
 
@@ -581,7 +583,7 @@ def ss_oracle(r, conv):
     dot_rows = []       # (state name, exactly negated?) of every row of A X + B U that differs from the physical derivative
     conv_ = r.get('convention', 'passive')
     for e in ss.get('excitations', []):
-        if 'error' in e or any(x is None for x in e['dotx'] + e['y']):
+        if 'error' in e or any(x is None for x in e['dotx']):
             continue
         X_, U_ = [Fraction(x) for x in e['X']], [Fraction(x) for x in e['U']]
         for k in range(n):
@@ -590,6 +592,8 @@ def ss_oracle(r, conv):
                 extraction_bad = True
                 dot_rows.append((ss['x'][k], got_ == -Fraction(e['dotx'][k])))
         for k in range(len(C)):
+            if e['y'][k] is None:
+                continue
             if sum(C[k][j] * X_[j] for j in range(n)) + sum(D[k][j] * U_[j] for j in range(len(U_))) != Fraction(e['y'][k]):
                 extraction_bad = True
     unit_neg = any(u.replace(' ', '').startswith('-') for u in ss.get('u', []))
